@@ -57,10 +57,19 @@ def parse_attrs(tokens):
 
 def impl_attrs(lat):
     """every public attribute of the real object, as plain floats / 3x3 lists"""
-    d = {n: float(getattr(lat, n)) for n in SCALARS}
+    nan = float("nan")
+    d = {}
+    for n in SCALARS:
+        try:
+            d[n] = float(getattr(lat, n))
+        except Exception:  # noqa: BLE001  (attribute missing / None / not a number: reported as a deviation)
+            d[n] = nan
     for n in MATS:
-        m = getattr(lat, n)
-        d[n] = [[float(m[i][j]) for j in range(3)] for i in range(3)]
+        try:
+            m = getattr(lat, n)
+            d[n] = [[float(m[i][j]) for j in range(3)] for i in range(3)]
+        except Exception:  # noqa: BLE001
+            d[n] = [[nan] * 3 for _ in range(3)]
     return d
 
 
@@ -435,13 +444,15 @@ def quantity_key(q):
     return q.split(" ")[0].split("(")[0]
 
 
-def fail_once(ck, key, what, replay, no_failing_input=False):
-    """at most one report per key and run (a broken formula fails on every cell with that angle non-right)"""
+def fail_once(ck, key, what, replay, no_failing_input=False, dedupe=None):
+    """at most one report per key (or per `dedupe` tag) and run: a broken formula fails on every cell
+    with that angle non-right / after every history reaching that path"""
     seen = ck.__dict__.setdefault("_keys_reported", set())
-    if key in seen:
+    key_d = dedupe or key
+    if key_d in seen:
         ck.coverage["suppressed_repeats"] = ck.coverage.get("suppressed_repeats", 0) + 1
         return
-    seen.add(key)
+    seen.add(key_d)
     ck.fail(key, what, replay, no_failing_input)
 
 
